@@ -188,6 +188,29 @@ Example C08_order_ab_ba :
   corr_of ba (1, 1) (1, 3) = Some 2 /\ corr_of ba (1, 3) (1, 1) = Some 2 /\ corr_of ba (1, 1) (1, 2) = Some 4.
 Proof. exact order_ab_ba. Qed.
 
+(* ---- (5c) ensembles: _thaw assigns the archived ensemble onto the leaf; a live leaf keeps its ensemble
+   whenever the archived record agrees with it (always, for multiple_ureal ensembles, whatever PART
+   of the ensemble the archive holds).  _partial: an ensemble that GREW after the dump (line-fit
+   x_from_y / y_from_x) is overwritten by the older record (reported; such histories are not generated) *)
+Theorem C08_thaw_keeps_ensemble_partial :
+  forall ln s s' r, thaw_leaves s ln = (s', r) -> NoDup (map fst ln) ->
+  (forall u fl l, In (u, fl) ln -> lget (s_leaves s) u = Some l -> l_ens fl = None \/ l_ens fl = l_ens l) ->
+  forall u l, lget (s_leaves s) u = Some l -> exists l', lget (s_leaves s') u = Some l' /\ l_ens l' = l_ens l.
+Proof. exact thaw_leaves_ens. Qed.
+Print Assumptions C08_thaw_keeps_ensemble_partial.
+
+(* x1,x2,x3 one ensemble (5 dof); archive A holds x1 only, archive B holds x2,x3; reading A and B and
+   Archive.copy of A in the session leave every live leaf's ensemble {x1,x2,x3} *)
+Example C08_split_ensemble :
+  let st := run (init_state 1)
+    [ODeclEnsemble [(None, 2); (None, 3); (None, 5)] 5; OSetCorr 0 1 4;
+     OArchive; OAdd 0 [("x1"%string, 0%nat)]; OWrite 0 FJson;
+     OArchive; OAdd 1 [("x2"%string, 1%nat); ("x3"%string, 2%nat)]; OWrite 1 FXml;
+     ORead 0; ORead 1; OCopy 0] in
+  map (fun p => l_ens (snd p)) (s_leaves (st_ses st)) =
+  [Some [(1, 1); (1, 2); (1, 3)]; Some [(1, 1); (1, 2); (1, 3)]; Some [(1, 1); (1, 2); (1, 3)]].
+Proof. vm_compute. reflexivity. Qed.
+
 (* ---- (6) fresh uids.  Loading (and Archive.copy) never touches the context id or the counters;
    a number declared after a load takes (context id, counter+1), which no uid of the document
    equals when the document comes from a session with another context id (uuid4: assumption) *)
